@@ -11,12 +11,16 @@ def impl(case):
     from paulie import get_pauli_string, get_optimal_su_2_n_generators
     if case.get("op") == "screen":
         return {"dependents": [str(s) for s in get_pauli_string(case["gens"]).get_dependents()]}
+    # the classification of the input with the call sites of its attachments (harness-side observation): a failure that comes from the
+    # listed classifier defect (a dependent single leg that the reduction does not recognise) is told apart from a defect of the optimiser
+    from harness import cls
+    tr, _, _ = cls.classify(case["gens"], trace=True)
     random.seed(case["seed"])
     c = get_pauli_string(case["gens"])
     ind = [str(s) for s in c.copy().get_independents()]
     deps = [str(s) for s in c.copy().get_dependents()]
     out = get_optimal_su_2_n_generators(c)
-    return {"out": None if out is None else [str(s) for s in out], "independents": ind, "dependents": deps,
+    return {"out": None if out is None else [str(s) for s in out], "independents": ind, "dependents": deps, "morphs": tr["morphs"], "attach_sites": tr.get("attach_sites"), "algebra": tr["algebra"],
             "pairs": None if out is None else out.get_anticommutation_pair()}
 
 
@@ -71,6 +75,9 @@ def main():
     # the witness of that defect, on every run
     bases.append(("sparse-low-weight", 6, ["IIIIZX", "IIIYYI", "ZIIXII", "IIIIIY", "IIZIII", "IIIIIZ", "IYIIXI", "IIIXII", "ZIIIII", "IIIZII", "XIIIII", "IIIIIX",
                                           "YIXIII", "IZYIII", "IIIIYY", "IIYIXI", "IYIIII"]))
+    # ... and an input on which the classifier itself is wrong (listed finding: a dependent single leg it does not recognise), met on every run
+    bases.append(("sparse-low-weight", 6, ["IIYIIY", "ZIIIIX", "YZIIII", "IXIXII", "IIIXII", "IIZIZI", "IIIYII", "IIIZIY", "IXIIIZ", "IXIIIY", "XIIIII", "IIIXXI",
+                                          "XIIIYI", "IIIIXZ", "IIIIIY", "IIIIIX"]))
     # keep only inputs whose closure really is all of su(2^n)
     cards = ck.oracle(["closure_card %d %s" % (n, " ".join(g)) for _, n, g in bases])
     bases = [b for b, c in zip(bases, cards) if int(c) == 4 ** b[1] - 1]
@@ -115,7 +122,10 @@ def main():
             if any(len(s) != n for s in out):
                 bad.append("output string of wrong length")
         if bad:
-            ck.fail(None, "get_optimal_su_2_n_generators(%s) seed=%d: %s" % (c["gens"], c["seed"], "; ".join(bad)), dict(c, result=r, problems=bad))
+            from harness.c01 import signature
+            key = signature(r.get("morphs") or [], r.get("attach_sites")) if r.get("algebra") != "su(%d)" % 2 ** n else None
+            ck.fail(key, "get_optimal_su_2_n_generators(%s) seed=%d: %s%s" % (c["gens"], c["seed"], "; ".join(bad),
+                    " [the classifier names the input %s]" % r.get("algebra") if key else ""), dict(c, result=r, problems=bad))
     ck.cov["evaluations"] = len(cases)
     ck.cov["distinct_nontrivial"] = len(nt)
     ck.cov["rule"] = ("inputs generating su(2^n): two-local families %s and even-k universal sets (plus random supersets) at n=3..%d, verified full by the oracle, each under %d random.seed values; "
